@@ -16,12 +16,14 @@ import (
 	"path/filepath"
 	"runtime"
 	"sort"
+	"strconv"
 	"strings"
 	"time"
 
 	"github.com/jf-tech/go-corelib/caches"
 	"github.com/jf-tech/omniparser"
 	"github.com/jf-tech/omniparser/errs"
+	v21funcs "github.com/jf-tech/omniparser/extensions/omniv21/customfuncs"
 	"github.com/jf-tech/omniparser/idr"
 	"github.com/jf-tech/omniparser/transformctx"
 
@@ -49,6 +51,8 @@ type Case struct {
 	Kind    string     `json:"kind,omitempty"` // scenario name (for the histogram)
 	DynKeys      []string `json:"dyn_keys,omitempty"`      // xpath queries per record, in order; "!" = computed (xpath_dynamic)
 	StaticXPaths []string `json:"static_xpaths,omitempty"` // xpaths compiled once (reader creation)
+	WarmUp  int        `json:"warm_up,omitempty"`  // heap run: sampling starts after this many records (a bounded cache must be full)
+	JSCache bool       `json:"js_cache,omitempty"` // heap run: also look at the entry count of customfuncs.NodeToJSONCache
 	Heap    bool       `json:"heap,omitempty"` // live-heap run: no logging wrapper, lazily generated input
 	RunAt   int        `json:"run_at,omitempty"`  // records RunAt .. RunAt+RunLen-1 are Recs[1] (rejected by the filter):
 	RunLen  int        `json:"run_len,omitempty"` // one long unbroken run of rejections inside ONE Read of the caller
@@ -443,6 +447,38 @@ func vals(r *vh.Rng) (a, a2, b, b2, c string) {
 	return fmt.Sprintf("v%d", r.Pick(9)), fmt.Sprintf("w%d", r.Pick(9)), fmt.Sprint(r.Between(0, 9999)), fmt.Sprint(r.Between(0, 99)), r.PickStr("abc", "x", "zz9", "w")
 }
 
+// numericCase: the FINAL_OUTPUT filter is a numeric comparison (.[b > 5]) and the column is blank
+// or not a number on some records: the xpath library cannot evaluate the filter there (it panics
+// inside, the query functions turn that into "no match"), so such a record is rejected like any
+// other - and must be removed like any other.
+func numericCase(fx flatFixture, count int, r *vh.Rng) *Case {
+	c := flatCase(fx, true, false, "none", count, r)
+	repl := strings.NewReplacer(
+		`not(starts-with(R/a, 'skip'))`, `R/b > 5`, `not(starts-with(a, 'skip'))`, `b > 5`,
+		`DAT/a != 'skip'`, `DAT/b > 5`, `R/a != 'skip'`, `R/b > 5`, `a != 'skip'`, `b > 5`)
+	c.Schema = repl.Replace(c.Schema)
+	num := func(n int) string {
+		if strings.HasPrefix(fx.format, "fixed") {
+			return fmt.Sprintf("%05d", n) // the column is 5 wide: padding blanks would make it non-numeric
+		}
+		return fmt.Sprint(n)
+	}
+	a, a2, _, _, cc := vals(r)
+	bad := r.PickStr("x9", "", "1e", "--")
+	c.Recs = []string{fx.rec(a, num(r.Between(6, 9999)), cc), fx.rec(a2, num(r.Between(0, 5)), cc), fx.rec(a2, bad, cc), fx.rec(a, num(r.Between(6, 99)), cc)}
+	c.Pass = []bool{true, false, false, true}
+	c.TFail = []bool{false, false, false, false}
+	c.Kind = fx.variant + " filter that cannot be evaluated on some records (b > 5, b=" + strconv.Quote(bad) + ")"
+	// kind 2 (unevaluable) and kind 1 (b <= 5) mixed into the passing ones, with runs
+	c.Prefix = nil
+	c.Order = nil
+	for i, n := 0, r.Between(6, 14); i < n; i++ {
+		c.Order = append(c.Order, []int{0, 3, 2, 2, 1}[r.Pick(5)])
+	}
+	c.Order = append(c.Order, 0, 2, 2, 2, 3)
+	return c
+}
+
 func flatCase(fx flatFixture, filter, sep bool, tfail string, count int, r *vh.Rng) *Case {
 	c := &Case{Format: fx.format, Schema: fx.schema(filter), Open: fx.open, Close: fx.clos, Count: count,
 		Kind: fmt.Sprintf("%s filter=%v sep=%v tfail=%s", fx.variant, filter, sep, tfail)}
@@ -574,6 +610,16 @@ func dynCase(format string, count int, r *vh.Rng) *Case {
   "d": { "xpath_dynamic": { "custom_func": { "name": "concat", "args": [ { "const": "attrs/" }, { "xpath": "key" } ] } } },
   "u": { "custom_func": { "name": "upper", "args": [ { "xpath": "key" } ] } },
   "j": { "custom_func": { "name": "javascript", "args": [ { "const": "k + '!'" }, { "const": "k" }, { "xpath": "key" } ] } } } } } }`
+	return c
+}
+
+// jsCase: a tiny javascript_with_context on every record, over more records than the default LRU
+// capacity (65536) of the process-wide node-to-JSON cache; sampling starts once that cache is full.
+func jsCase(count int) *Case {
+	c := &Case{Format: "json", Count: count, Open: "[", Close: "]", Joiner: ",", Recs: []string{`{"a":"1"}`}, Pass: []bool{true},
+		Kind: "javascript_with_context on every record, more records than the LRU capacity", WarmUp: 68000, JSCache: true}
+	c.Schema = `{` + hdr("json") + `, "transform_declarations": { "FINAL_OUTPUT": { "xpath": "/*", "object": {
+  "j": { "custom_func": { "name": "javascript_with_context", "args": [ { "const": "JSON.parse(_node).a" } ] } } } } } }`
 	return c
 }
 
@@ -750,9 +796,10 @@ func runCase(o *vh.Opts, c *Case, sum *vh.Summary, cw *vh.CaseWriter, verbose bo
 			}
 		}
 	}
+	countsOff := ""
 	if res.OKs != wantOK || res.Failed != wantFail || len(res.Ms) != wantOK+wantFail {
-		sum.Fail(fmt.Sprintf("expected %d transformed records and %d failed transforms, got %d and %d (%d reader deliveries)", wantOK, wantFail, res.OKs, res.Failed, len(res.Ms)), c, nil)
-		return false
+		// reported below, after the growth oracle: when both fail, the growth is the finding
+		countsOff = fmt.Sprintf("expected %d transformed records and %d failed transforms, got %d and %d (%d reader deliveries)", wantOK, wantFail, res.OKs, res.Failed, len(res.Ms))
 	}
 	// ---- the property oracle: what is reachable at a delivery is constant after the first few ----
 	// (what is reachable = a fixed part + the record itself, so the record's own size is taken out:
@@ -800,10 +847,16 @@ func runCase(o *vh.Opts, c *Case, sum *vh.Summary, cw *vh.CaseWriter, verbose bo
 		if verbose {
 			fmt.Println("ORACLE FAILS: link closure differs from the tree at delivery", linkDiff)
 		}
+	case countsOff != "":
+		sum.Fail(countsOff, c, nil)
+		return false
 	default:
 		if verbose {
 			fmt.Println("oracle holds: reachable node count is constant")
 		}
+	}
+	if countsOff != "" {
+		return false // the sequence of deliveries is not the one the Coq case would describe
 	}
 	nt := len(res.Ms) >= 10
 	// ---- Coq case ----
@@ -958,7 +1011,7 @@ func heapRun(o *vh.Opts, c *Case, sum *vh.Summary, slack uint64, verbose bool) b
 				fin = fmt.Sprintf("gave up after %v and %d of about %d records: the time per record grows with the number of records read", heapDeadline, reads, expect)
 				break
 			}
-			if reads%every == 0 && reads >= expect/4 {
+			if reads%every == 0 && reads >= expect/4 && reads >= c.WarmUp {
 				samples = append(samples, sample{reads, liveHeap()})
 			}
 		}
@@ -966,6 +1019,16 @@ func heapRun(o *vh.Opts, c *Case, sum *vh.Summary, slack uint64, verbose bool) b
 	}()
 	close(stop)
 	<-stopped
+	if c.JSCache && fin == "EOF" {
+		// one entry per node a javascript_with_context was evaluated on; node IDs are never reused,
+		// so only the LRU capacity of the loading cache (65536 by default) bounds it
+		n := len(v21funcs.NodeToJSONCache.DumpForTest())
+		sum.Extra["node_to_json_cache_entries_after_"+fmt.Sprint(reads)+"_records"] = n
+		if n > 66000 {
+			sum.Fail("customfuncs.NodeToJSONCache keeps an entry for every record ever transformed (more entries than its LRU capacity of 65536)",
+				c, map[string]interface{}{"entries": n, "records_read": reads})
+		}
+	}
 	if fin != "EOF" {
 		sum.Fail("the transform did not reach EOF: "+fin, c, nil)
 		return false
@@ -1125,6 +1188,12 @@ func main() {
 		}
 		one(flatCase(fx, true, false, "none", size(false), r))
 	}
+	// filters that cannot be evaluated on some records
+	for _, fx := range flatFixtures() {
+		if fx.variant == "" || fx.variant == "child-records" || fx.variant == "group-target" {
+			one(numericCase(fx, size(false), r))
+		}
+	}
 	// targets with child records / group targets: runs of consecutive rejected instances
 	for _, fx := range flatFixtures() {
 		if fx.variant == "" {
@@ -1207,6 +1276,12 @@ func main() {
 	}
 	longRun(xmlCase("child", false, "none", long/2, r))
 	longRun(jsonCase("root-array", false, true, "none", long/2, r))
+	// a process-wide cache keyed by node ID: must stay within its LRU capacity
+	if o.Tier == "thorough" {
+		heap(jsCase(200000))
+	} else {
+		heap(jsCase(110000))
+	}
 	// values computed per record: xpath_dynamic strings, custom_func / javascript arguments
 	heap(dynCase("xml", slong, r))
 	heap(dynCase("json", slong, r))
